@@ -42,6 +42,7 @@ pub struct Rec {
     pub label: String,
     pub a1: String,
     pub a2: String,
+    pub a3: String,
     pub at: Instant,
     /// the clock the `timer` crate schedules by
     pub wall: std::time::SystemTime,
@@ -64,6 +65,7 @@ impl Action for Mark {
             label: s(0),
             a1: s(1),
             a2: s(2),
+            a3: s(3),
             at,
             wall,
         });
@@ -307,7 +309,7 @@ fn sender_xml(case: &Case, sess: usize, recorder_id: u32) -> String {
     x
 }
 
-const RECV_TRANSITIONS: &str = "<transition event=\"e\"><script>mark('recv',_event.name,_event.data.v)</script></transition>\
+const RECV_TRANSITIONS: &str = "<transition event=\"e\"><script>mark('recv',_event.name,_event.data.v,_event.sendid)</script></transition>\
      <transition event=\"error\"><script>mark('err',_event.name,0)</script></transition>";
 
 fn recorder_xml() -> String {
@@ -349,6 +351,8 @@ pub struct Obs {
     /// wall-clock stamps of the `pre` mark of send k and of the arrivals of event k
     pub wall_pre: BTreeMap<usize, std::time::SystemTime>,
     pub wall_recv: Vec<(usize, std::time::SystemTime)>,
+    /// `_event.sendid` as the receiver sees it, per arrival
+    pub recv_sendid: Vec<(usize, String)>,
 }
 
 fn start(xml: String, marks: &Marks, executor: &FsmExecutor) -> Result<ScxmlSession, String> {
@@ -535,6 +539,7 @@ pub fn run_case(case: &Case, delays: &BTreeMap<usize, i64>, expect_n: usize, hb:
                 match r.a1.strip_prefix("e.").and_then(|x| x.parse::<usize>().ok()) {
                     Some(k) => {
                         obs.recvs.push((k, who, t, r.a2.clone()));
+                        obs.recv_sendid.push((k, r.a3.clone()));
                         obs.wall_recv.push((k, r.wall));
                     }
                     None => obs.problems.push(format!("unexpected event {}", r.a1)),
@@ -664,10 +669,15 @@ fn model_run(model: &mut Model, script: &str) -> Result<ModelRun, String> {
     if parts[0] != "." {
         for d in parts[0].split(',') {
             let f: Vec<&str> = d.split(':').collect();
-            if f.len() != 5 {
+            if f.len() != 6 {
                 return Err(r.clone());
             }
-            deliveries.push((f[0].parse().map_err(|_| r.clone())?, f[1].to_string(), f[4].parse().map_err(|_| r.clone())?));
+            // payload and the send id the event carries: "<payload>#<id>" ("null" = none, as `_event.sendid` shows it)
+            let id = match crate::proto::unhex(f[5]) {
+                Some(b) if f[5] != "-" => String::from_utf8_lossy(&b).to_string(),
+                _ => "null".to_string(),
+            };
+            deliveries.push((f[0].parse().map_err(|_| r.clone())?, format!("{}#{}", f[1], id), f[4].parse().map_err(|_| r.clone())?));
         }
     }
     let errors = parts[2]
@@ -1181,8 +1191,9 @@ fn sequences(p: &Prepared, predicted: &ModelRun, obs: &Obs) -> ((Seqs, Vec<usize
         model_seq.entry(*recv_of.get(k).unwrap_or(&99)).or_default().push((*k, v.clone()));
     }
     let mut impl_seq: Seqs = BTreeMap::new();
-    for (k, who, _t, v) in &obs.recvs {
-        impl_seq.entry(*who).or_default().push((*k, v.clone()));
+    for (i, (k, who, _t, v)) in obs.recvs.iter().enumerate() {
+        let id = obs.recv_sendid.get(i).map(|x| x.1.clone()).unwrap_or_default();
+        impl_seq.entry(*who).or_default().push((*k, format!("{}#{}", v, id)));
     }
     let mut impl_err = vec![0usize; 2];
     for (who, n) in &obs.errors {
